@@ -22,8 +22,10 @@ Put(f, k, v) == [x \in DOMAIN f \cup {k} |-> IF x = k THEN v ELSE f[x]]
 Del(f, k) == [x \in DOMAIN f \ {k} |-> f[x]]
 Val(j) == [ver |-> j.ver, ph |-> j.phase, fins |-> ToSet(j.fins), val |-> j.val, owner |-> j.owner]
 (* skip / keep: "skipmode" - from that line on the transform function asks to skip every reconcile (SkipReconcileTag): an output  *)
-(* that exists stays as it is (keep = the ids whose output existed for a running input at that moment and whose input has stayed *)
-(* running since), no new output has to appear; clean-up of torn-down inputs goes on as always                                   *)
+(* that exists stays as it is (keep = the ids whose output existed IN RUNNING PHASE for a running input at that moment and whose *)
+(* input has stayed running since; an output that was already being torn down then - left over from an earlier incarnation of   *)
+(* the input - is still destroyed and, the transform being skipped, not made again), no new output has to appear; clean-up of    *)
+(* torn-down inputs goes on as always                                                                                            *)
 (* destroyer: destroy.Controller for the input type runs as well: when the system is quiet no input is left that it is meant to *)
 (* remove (unowned, tearing down, without finalizers)                                                                            *)
 (* extra: a secondary input kind (qtransform: extra mapped input, secondary rN -> input rN; transform: extra input); the driver's *)
@@ -118,7 +120,7 @@ Next == /\ l <= Len(TraceLog) /\ l' = l + 1
                     [] e.ev = "quiet" -> Quiet(e)
                     [] e.ev = "skipmode" ->
                          /\ flags' = [flags EXCEPT !.skip = TRUE,
-                                                   !.keep = {id \in DOMAIN outs : outs[id].owner = flags.ctrl /\ id \in DOMAIN ins /\ TreatedRunning(ins[id])}]
+                                                   !.keep = {id \in DOMAIN outs : outs[id].owner = flags.ctrl /\ outs[id].ph = "running" /\ id \in DOMAIN ins /\ TreatedRunning(ins[id])}]
                          /\ UNCHANGED <<ins, outs, tid, bad, exposed>>
                     [] OTHER -> UNCHANGED <<ins, outs, flags, tid, bad, exposed>>
 Spec == Init /\ [][Next]_tvars
